@@ -94,9 +94,13 @@ bool run(const Case &c, std::string &msg) {
         }
         XBuf cb(p.chunk, 1), ab(p.ad, 2), mb(p.msg.size(), 4, 0x77);
         unsigned long long ml = 999; unsigned char tg = 0x55;
-        int rc = crypto_secretstream_xchacha20poly1305_pull(puller, mb.p, &ml, &tg, cb.p, p.chunk.size(), p.ad_null ? nullptr : ab.p, p.ad_null ? 0 : p.ad.size());
+        // the length and tag outputs are optional: a quarter of the pulls leave out the tag, a quarter the length, a quarter both
+        // (which ones is a function of the chunk, so a history replays identically); the state transition must not depend on it
+        unsigned opt = p.chunk.empty() ? 0 : (unsigned) (p.chunk[p.chunk.size() - 1] & 3);
+        bool want_tag = !(opt & 1), want_len = !(opt & 2);
+        int rc = crypto_secretstream_xchacha20poly1305_pull(puller, mb.p, want_len ? &ml : nullptr, want_tag ? &tg : nullptr, cb.p, p.chunk.size(), p.ad_null ? nullptr : ab.p, p.ad_null ? 0 : p.ad.size());
         if (rc != 0) { why = "the genuine next chunk was rejected"; return false; }
-        if (ml != p.msg.size() || mb.get() != p.msg || tg != p.tag) { why = "pull returned a different message, length or tag than was pushed"; return false; }
+        if ((want_len && ml != p.msg.size()) || mb.get() != p.msg || (want_tag && tg != p.tag)) { why = "pull returned a different message, length or tag than was pushed"; return false; }
         Bytes mm; uint8_t mt;
         if (!mpull.pull(p.chunk, p.ad, mm, mt) || mm != p.msg || mt != p.tag) { why = "model rejected the genuine chunk (harness bug)"; return false; }
         if (state_bytes(*puller) != model_state_bytes(mpull)) { why = "puller state after a successful pull differs from the model"; return false; }
